@@ -367,7 +367,7 @@ GROUPS = {
     "KernelsLin": ["mergeLinearCell", "addLinearScalar", "queryStepLinear", "queryStepLog16", "queryStepLog8"],
     "KernelsHH": ["hhAddCell", "hhMergeCell", "hhMaxStep"],
     "KernelsRand": ["randNext", "logCounterStep"],
-    "KernelsPar": ["monitorStep", "mergeRound"],
+    "KernelsPar": ["monitorStep", "mergeRound", "worker"],
     "KernelsHHQ": ["hhQuery"],
 }
 
@@ -529,6 +529,67 @@ def translate_hhquery():
             f"  if {t_empty} then false else if {t_unseen} then decide {t_thr} else false\n")
 
 
+WORKER_SKELETON = [
+    "log_queue.put({'level': 'INFO', 'text': f'WORKER {worker_id:02} is starting'})",
+    "n_records = 0",
+    "local_sketches = []",
+    "for s in sketch:\n    sk = attach_shared_memory(*s)\n    local_sketches.append(sk)",
+    "start = datetime.now()",
+    "while True: <loop>",
+]
+WORKER_LOOP = [
+    "q_item = in_queue.get()",
+    "if <item test>: <item branch> else: <pill branch>",
+]
+WORKER_ITEM = [
+    "try:\n    n_recs = process_q_item(q_item, *local_sketches, **kwargs)\nexcept Exception as exc:\n    n_recs = 0\n"
+    "    msg = f'WORKER {worker_id:02} threw exception on {q_item}: {exc}'\n    log_queue.put({'level': 'ERROR', 'text': msg})",
+    "n_records += n_recs",
+    "end = datetime.now()",
+    "speed = n_records / (end - start).total_seconds()",
+    "log_queue.put({'level': 'DEBUG', 'text': f'WORKER {worker_id:02} has processed ' + f'{n_records:,} records at {speed:.3f} records/sec'})",
+]
+WORKER_PILL = [
+    "for local_sketch in local_sketches:\n    try:\n        local_sketch.n_added_records[1] += np.uint64(n_records)\n    except:\n        pass\n    del local_sketch",
+    "end = datetime.now()",
+    "speed = n_records / (end - start).total_seconds()",
+    "log_queue.put({'level': 'INFO', 'text': f'WORKER {worker_id:02} finished ' + f'{n_records:,} records at {speed:.3f} records/sec'})",
+    "return None",
+]
+
+
+def translate_worker():
+    """`helpers._worker`: the whole function must read exactly as modelled (attach, loop, try/except around the callback, record accounting,
+    what happens at the poison pill); the translated parts are the test that tells an item from the pill and the record arithmetic."""
+    src, tree = _parse(os.path.join(REPO, "sketchnu", "helpers.py"))
+    fn = _func(tree, "_worker")
+    body = [x for x in fn.body if not (isinstance(x, ast.Expr) and isinstance(x.value, ast.Constant))]
+    got = [ast.unparse(x) if not isinstance(x, ast.While) else f"while {ast.unparse(x.test)}: <loop>" for x in body]
+    if got != WORKER_SKELETON:
+        raise TranslateError(f"_worker no longer reads as modelled: {got!r}")
+    loop = body[-1].body
+    if len(loop) != 2 or not isinstance(loop[1], ast.If):
+        raise TranslateError("_worker: the loop is not `q_item = in_queue.get(); if …: … else: …`")
+    got = [ast.unparse(loop[0]), "if <item test>: <item branch> else: <pill branch>"]
+    if got != WORKER_LOOP:
+        raise TranslateError(f"_worker loop no longer reads as modelled: {got!r}")
+    test = ast.unparse(loop[1].test)
+    if test != "q_item is not None":
+        raise TranslateError(f"_worker tells an item from the poison pill by `{test}`, not by `q_item is not None`")
+    item = [ast.unparse(x) for x in loop[1].body]
+    pill = [ast.unparse(x) for x in loop[1].orelse]
+    if item != WORKER_ITEM:
+        raise TranslateError(f"_worker: the item branch no longer reads as modelled: {item!r}")
+    if pill != WORKER_PILL:
+        raise TranslateError(f"_worker: the poison-pill branch no longer reads as modelled: {pill!r}")
+    return ("/-- `_worker`: is the value taken from the queue an item (`q_item is not None`)?  Any item — also a falsy one — is processed; only `None` stops the worker -/\n"
+            "def workerIsItem {I : Type} (q_item : Option I) : Bool := q_item.isSome\n\n"
+            "/-- `_worker`, item branch: `n_recs` is the callback's return value, or 0 when the callback raised (`ret = none`); `n_records += n_recs` -/\n"
+            "def workerTurn (n_records : Nat) (ret : Option Nat) : Nat :=\n  let n_recs := (match ret with | some r => r | none => 0); n_records + n_recs\n\n"
+            "/-- `_worker`, pill branch: every local sketch gets `n_added_records[1] += n_records`, then the worker returns -/\n"
+            "def workerFinish (n_added_records_1 n_records : Nat) : Nat := n_added_records_1 + n_records\n")
+
+
 MERGING_SKELETON = [
     "mergers = []",
     "for i in range(<pair count>):\n    sketch1 = (sketch_type, sketch_args, sketch_array[<dst>].shm.name)\n    sketch2 = (sketch_type, sketch_args, sketch_array[<src>].shm.name)\n"
@@ -604,6 +665,13 @@ def render(group):
          "namespace Sketchnu.Src", ""]
     errors = []
     for name in GROUPS[group]:
+        if name == "worker":
+            try:
+                L.append(translate_worker())
+            except TranslateError as e:
+                errors.append(f"worker: {e}")
+                L.append(f"-- TRANSLATION FAILED for worker: {e}\n")
+            continue
         if name == "mergeRound":
             try:
                 L.append(translate_merging())
